@@ -157,6 +157,13 @@ def run_check(mod, tier: str, seed: int, replay: Optional[str] = None, only: Opt
         shutil.rmtree(scratch, ignore_errors=True)
 
 
+_PARTIAL = False  # a run restricted with --only is not a run of the tier: its record goes to <ID>.partial.json (git-ignored)
+
+
+def _evidence_path(prop):
+    return EVIDENCE_DIR / (f"{prop}.partial.json" if _PARTIAL else f"{prop}.json")
+
+
 def _inconclusive(prop, reason, tier, seed, t_start, mod, extra=None):
     print(f"INCONCLUSIVE property={prop} reason={reason}")
     # still write an evidence file saying so (it will not validate as held evidence: evaluations may be 0)
@@ -178,7 +185,7 @@ def _inconclusive(prop, reason, tier, seed, t_start, mod, extra=None):
         "violations": 0,
     }
     EVIDENCE_DIR.mkdir(exist_ok=True)
-    (EVIDENCE_DIR / f"{prop}.json").write_text(json.dumps(ev, indent=1))
+    _evidence_path(prop).write_text(json.dumps(ev, indent=1))
     return 2
 
 
@@ -200,6 +207,8 @@ def _run_check(mod, prop, tier, seed, replay, only, scratch, t_start):
         return 0
 
     n = mod.n_cases(tier)
+    global _PARTIAL
+    _PARTIAL = only is not None
     indices = list(range(n)) if only is None else only
     nworkers = max(1, min(int(os.environ.get("VERIF_WORKERS", "16")), len(indices)))
     sys.stdout.flush()
@@ -427,7 +436,7 @@ def conclude(mod, prop, tier, seed, recs, planned, dead_workers, t_start, extra_
         "wall_s": round(time.time() - t_start, 2),
         "violations": len(viol_new),
     }
-    (EVIDENCE_DIR / f"{prop}.json").write_text(json.dumps(ev, indent=1))
+    _evidence_path(prop).write_text(json.dumps(ev, indent=1))
 
     for k, cnt in sorted(viol_known.items()):
         r, v = known_example[k]
@@ -469,6 +478,6 @@ def conclude(mod, prop, tier, seed, recs, planned, dead_workers, t_start, extra_
         print(f"INCONCLUSIVE property={prop} reason={reason}")
         ev["coverage"]["verdict"] = "inconclusive"
         ev["coverage"]["reason"] = reason
-        (EVIDENCE_DIR / f"{prop}.json").write_text(json.dumps(ev, indent=1))
+        _evidence_path(prop).write_text(json.dumps(ev, indent=1))
         return 2
     return 0
